@@ -103,7 +103,8 @@ def _meta(ctx, mode, full_labels, tag):
     cfg = "MC_Meta_%s.cfg" % mode
     if full_labels:
         p = os.path.join(ctx.scratch, cfg)
-        open(p, "w").write(open(p).read().replace("LabelSet <- QuickLabels", "LabelSet <- Labels"))
+        _txt = open(p).read().replace("LabelSet <- QuickLabels", "LabelSet <- Labels")
+        open(p, "w").write(_txt)
     r = ctx.tlc_expect_ok("MC_Meta.tla", cfg, timeout=6000, xmx="24g", tag=tag)
     rp = os.path.join(ctx.scratch, tag + ".json")
     ctx.vdrive(["metadocs", "-in", r["out"], "-out", rp])
@@ -158,7 +159,8 @@ def c15(ctx):
     ctx.vdrive(["registry", "-out", reg])
     if not quick:
         p = os.path.join(ctx.scratch, "MediaType.cfg")
-        open(p, "w").write(open(p).read().replace("Full = FALSE", "Full = TRUE"))
+        _txt = open(p).read().replace("Full = FALSE", "Full = TRUE")
+        open(p, "w").write(_txt)
     r = ctx.tlc_expect_ok("MediaType.tla", "MediaType.cfg", env={"REGISTRY": reg}, timeout=6000, xmx="24g", workers=8)
     rp = os.path.join(ctx.scratch, "mt.json")
     ctx.vdrive(["mtqueries", "-in", r["out"], "-out", rp])
@@ -191,7 +193,8 @@ def c13(ctx):
             _set_const(ctx, cfg, "MaxRows", 4 if mode == "nd" else 3)
             if mode == "csv":
                 p = os.path.join(ctx.scratch, cfg)
-                open(p, "w").write(open(p).read().replace('SpecialKinds = {"e", "qd"}', 'SpecialKinds = {"e", "q", "qd", "qq"}'))
+                _txt = open(p).read().replace('SpecialKinds = {"e", "qd"}', 'SpecialKinds = {"e", "q", "qd", "qq"}')
+                open(p, "w").write(_txt)
         r = ctx.tlc_expect_ok("MC_Lines.tla", cfg, timeout=7000, xmx="30g", tag="lines_" + mode)
         rp = os.path.join(ctx.scratch, "lines_%s.json" % mode)
         ctx.vdrive(["linevec", "-in", r["out"], "-out", rp])
